@@ -108,6 +108,53 @@ def isoCheck (rules : List IsoRule) (node : Node) (batch : Nat) : Option (String
   | some r => some (r.id, node.conc)
   | none => none
 
+/-! ### system protection -/
+
+inductive SysMetric where
+  | load | avgRt | concurrency | inboundQps | cpuUsage
+  deriving Repr, DecidableEq, Inhabited
+
+structure SysRule where
+  id : String
+  metric : SysMetric
+  bbr : Bool            -- AdaptiveStrategy::BBR
+  thr : F64
+  deriving Repr, Inhabited
+
+/-- what the system slot observes at a check: the global inbound statistics and the last load / CPU readings -/
+structure SysObs where
+  qps : F64
+  conc : Nat
+  avgRt : F64
+  load : F64
+  cpu : F64
+  maxComplete : F64     -- `max_avg(Complete)`: best completed-per-second rate of a single bucket
+  minRt : F64
+  deriving Repr, Inhabited
+
+/-- `check_bbr_simple` is *false* (i.e. the BBR condition holds) iff more than one inbound request is in flight and
+their number exceeds the estimated capacity `max_complete * min_rt / 1000` -/
+def bbrExceeded (o : SysObs) : Bool :=
+  let conc := F64.ofNat o.conc
+  let cap := F64.div (F64.mul o.maxComplete o.minRt) (F64.ofNat 1000)
+  F64.lt (F64.ofNat 1) conc && F64.lt cap conc
+
+/-- `can_pass_check`: does rule `r` trip? together with the snapshot value it reports -/
+def SysRule.trips (r : SysRule) (o : SysObs) : Bool × F64 :=
+  match r.metric with
+  | .inboundQps => (!F64.lt o.qps r.thr, o.qps)
+  | .concurrency => (!F64.lt (F64.ofNat o.conc) r.thr, F64.ofNat o.conc)
+  | .avgRt => (!F64.lt o.avgRt r.thr, o.avgRt)
+  | .load => (F64.lt r.thr o.load && (!r.bbr || bbrExceeded o), o.load)
+  | .cpuUsage => (F64.lt r.thr o.cpu && (!r.bbr || bbrExceeded o), o.cpu)
+
+/-- the system slot: outbound entries are never checked; rules in order, the first that trips blocks -/
+def sysCheck (rules : List SysRule) (inbound : Bool) (o : SysObs) : Option (String × F64) :=
+  if !inbound then none
+  else match rules.find? (fun r => (r.trips o).1) with
+    | some r => some (r.id, (r.trips o).2)
+    | none => none
+
 /-! ### the world -/
 
 structure Entry where
@@ -120,7 +167,7 @@ structure Entry where
 /-- the outcome of `EntryBuilder::build` -/
 inductive BuildRes where
   | pass
-  | blocked (ty : String) (rule : String) (snap : Nat)
+  | blocked (ty : String) (rule : String) (snap : String)
   deriving Repr, DecidableEq, Inhabited
 
 structure World where
@@ -129,6 +176,9 @@ structure World where
   inbound : Node := {}
   flow : List (String × List FlowCtrl) := []
   iso : List (String × List IsoRule) := []
+  sys : List SysRule := []
+  load : F64 := F64.zero
+  cpu : F64 := F64.zero
   entries : List (Nat × Entry) := []
   deriving Inhabited
 
@@ -143,23 +193,47 @@ def node (w : World) (res : String) : Node := (lookup w.nodes res).getD {}
 def ctrls (w : World) (res : String) : List FlowCtrl := (lookup w.flow res).getD []
 def isoRules (w : World) (res : String) : List IsoRule := (lookup w.iso res).getD []
 
+/-- `ResourceNode::max_avg(Complete)` = `max_of_single_bucket as f64 * sample_count as f64 / interval_ms as f64 * 1000.0` -/
+def maxAvgComplete (n : Node) (nowMs : Nat) : F64 :=
+  F64.mul (F64.div (F64.mul (F64.ofNat (n.ring.maxOfSingleBucket globalGeo defaultReader nowMs .complete)) (F64.ofNat 2)) (F64.ofNat 1000)) (F64.ofNat 1000)
+
+/-- the observation the system slot makes now -/
+def sysObs (w : World) : SysObs :=
+  let n := w.inbound
+  let now := w.nowMs
+  { qps := n.ring.qpsWithTime globalGeo defaultReader now .pass, conc := n.conc,
+    avgRt := n.ring.avgRt globalGeo defaultReader now, load := w.load, cpu := w.cpu,
+    maxComplete := maxAvgComplete n now, minRt := F64.ofNat (n.ring.minRt globalGeo defaultReader now) }
+
+/-- rendering of an f64 snapshot: integers without denominator -/
+def snapStr (x : F64) : String :=
+  let s := x.toStr
+  if s.endsWith "/1" then (s.dropEnd 2).toString else s
+
 /-- block type name the isolation slot reports -/
 def isoBlockType : String := "Isolation"
+
+/-- the rule-check slots in slot order (system, flow, isolation, …); every slot runs; the last blocked result wins -/
+def verdict (w : World) (res : String) (batch : Nat) (inbound : Bool) : BuildRes :=
+  let now := w.nowMs
+  let nd := w.node res
+  let r0 : BuildRes := match sysCheck w.sys inbound w.sysObs with
+    | some (id, snap) => BuildRes.blocked "SystemFlow" id (snapStr snap)
+    | none => .pass
+  let r1 := match flowCheck (w.ctrls res) nd now batch with
+    | some (id, snap) => BuildRes.blocked "Flow" id (toString snap)
+    | none => r0
+  let r2 := match isoCheck (w.isoRules res) nd batch with
+    | some (id, snap) => BuildRes.blocked isoBlockType id (toString snap)
+    | none => r1
+  r2
 
 /-- `EntryBuilder::build` on the global slot chain -/
 def build (w : World) (eid : Nat) (res : String) (batch : Nat) (inbound : Bool) : World × BuildRes :=
   let now := w.nowMs
   -- prepare: get_or_create_resource_node
   let nd := w.node res
-  -- rule checks, in slot order; every slot runs; the last blocked result wins
-  let r0 : BuildRes := .pass
-  let r1 := match flowCheck (w.ctrls res) nd now batch with
-    | some (id, snap) => BuildRes.blocked "Flow" id snap
-    | none => r0
-  let r2 := match isoCheck (w.isoRules res) nd batch with
-    | some (id, snap) => BuildRes.blocked isoBlockType id snap
-    | none => r1
-  match r2 with
+  match w.verdict res batch inbound with
   | .pass =>
     let nd' := nd.recordPass now batch
     let inb' := if inbound then w.inbound.recordPass now batch else w.inbound
